@@ -134,9 +134,10 @@ theorem later_traffic_within (I T : Side) (f : Found) (acm : Bool) (n : Nat) :
   · have := inf_within (clampI 0 3 I.dep.lri) (decide (didByte I.dep.did > 0)) false n
     simpa [tAgreed, boolBit] using this
 
-/-- decoding ANY peer general bytes raises nothing but `pdu.DecodeError` -/
-theorem llc_decode_documented (o : LlcOpts) (gb : Bytes) : Safe (· = Exc.decodeError) (llcLink o gb) :=
-  llcLink_safe o gb
+/-- taking over ANY peer general bytes never raises: `llc.activate` ends with a configuration or
+with "no link" (returns False); a malformed parameter list gives "no link" -/
+theorem llc_decode_documented (o : LlcOpts) (gb : Bytes) : ∃ r, llcLink o gb = .ok r :=
+  llcLink_total o gb
 
 /-! ## why the LLC option range is a hypothesis -/
 
@@ -191,7 +192,8 @@ example : Pax.WF (sendPax sideT.llc) := sendPax_wf _ (by decide)
 example : (sendPax sideT.llc) = ⟨some 0x13, some 2047, some 19, some 100, some 3⟩ := by decide
 /-- out-of-range values are clamped, not rejected -/
 example : clampI 0 2 7 = 2 ∧ clampI 0 3 (-2) = 0 ∧ clampI 0 14 99 = 14 := by decide
-/-- malformed peer general bytes do raise DecodeError (the bound of `llc_decode_documented` is attained) -/
-example : llcLink optsA [0x46, 0x66, 0x6D, 1, 2, 0x13, 0] = .error .decodeError := by decide
+/-- malformed peer general bytes: no link, nothing raised; well-formed ones: a configuration -/
+example : llcLink optsA [0x46, 0x66, 0x6D, 1, 2, 0x13, 0] = .ok none := by decide
+example : (llcLink optsA [0x46, 0x66, 0x6D, 1, 1, 0x13, 2, 2, 0, 120]).toOption.join.map (·.sendMiu) = some 248 := by decide
 
 end NfcVerif.C19
